@@ -738,7 +738,17 @@ static void run_ops(int T, prog_t * p, void ** exit_val) {
       }
     } else if (!strcmp(op, "sleep")) {
       struct timespec ts = { num(o->w[1]) / 1000000000L, num(o->w[1]) % 1000000000L };
-      if (o->n > 2) { ts.tv_sec = num(o->w[1]); ts.tv_nsec = num(o->w[2]); }   /* sleep <sec> <nsec>: the raw fields (malformed durations, C20) */
+      /* trailing flag `remsep` / `remalias` (C20): rem = a separate object preset to (-4242, 4242) / rem = the request object
+         itself; the R line then carries  rem=<sec>,<nsec> req=<sec>,<nsec>  (contents after the call).  Without flag: rem = NULL */
+      int rsep = has(o, "remsep"), rali = has(o, "remalias");
+      if (o->n - rsep - rali > 2) { ts.tv_sec = num(o->w[1]); ts.tv_nsec = num(o->w[2]); }   /* sleep <sec> <nsec>: the raw fields (malformed durations, C20) */
+      if (rsep || rali) {
+        struct timespec cell[2];   /* on the calling user thread's own stack: it may migrate during the sleep */
+        cell[0] = ts; cell[1].tv_sec = -4242; cell[1].tv_nsec = 4242;
+        volatile struct timespec * q = &cell[0], * m = rali ? &cell[0] : &cell[1];
+        r = myth_nanosleep((struct timespec *)q, (struct timespec *)m);
+        sprintf(ex, "rem=%ld,%ld req=%ld,%ld", (long)m->tv_sec, (long)m->tv_nsec, (long)q->tv_sec, (long)q->tv_nsec);
+      } else
       r = myth_nanosleep(&ts, 0);
     } else if (!strcmp(op, "keycreate")) {
       obj_t * k = obj_named(o->w[1]); r = myth_key_create(&k->u.k, 0); sprintf(ex, "key=%d", (int)k->u.k);
